@@ -212,6 +212,8 @@ def main(argv=None):
     chk.assumptions = ["operands of fpbase kernels are < p (class invariant, established by C02)", "reduction input < p*2^384"]
     import c03_t1
     c03_t1.annotate(chk)
+    # statelessness (no call leaves anything behind in a global or static) is a premise of every per-call obligation: C20's IR obligations
+    chk.include("C20")
     chk.run()
     chk.finish()
 
